@@ -131,6 +131,10 @@ def gen_case(rng, cid, families=None, kinds=('mh', 'pt'), allow_saveload=True,
     # reset_after_swap: exchanged levels restart their adaptation (a third of the tempered cases)
     if c.kind == 'pt' and orng.random() < 0.35:
         c.reset_after_swap = True
+    # optional constructor arguments of the proposals at non-default values (half of the cases)
+    if orng.random() < 0.5:
+        for _, _, kw in c.props:
+            kw['optional'] = orng.randrange(1 << 16)
     if orng.random() < 0.5:
         orng.shuffle(c.params)
         orng.shuffle(c.props)
